@@ -138,6 +138,10 @@ def gen_prices(rng, T, keys, kind=None, cap_levels=None):
             v = rng.normal(0, 15, T)
         elif kd == 'big':
             v = rng.normal(500, 300, T)
+        elif kd == 'tail_neg':                      # the horizon ends with negative prices: an incentive to end full / above the end level
+            v = rng.normal(20, 8, T); k_ = max(1, T // 4); v[-k_:] = -np.abs(rng.normal(15, 5, k_)) - 1.
+        elif kd == 'head_neg':
+            v = rng.normal(20, 8, T); k_ = max(1, T // 4); v[:k_] = -np.abs(rng.normal(15, 5, k_)) - 1.
         else:
             v = np.repeat(rng.normal(20, 10, (T + 3) // 4), 4)[:T] + rng.normal(0, .01, T)
         out[k] = [float(x) for x in np.round(v, 3)]
@@ -321,6 +325,15 @@ def gen_plant(rng, g, name, nodes, f, price_key, chp=False, simple=False, fuel=T
     hi = pick(rng, [4., 6., 10.]); lo = pick(rng, [1., 2., 0.])
     a = {'type': 'CHPAsset' if chp else 'Plant', 'name': name, 'nodes': list(nodes), 'price': price_key,
          'min_cap': r2(lo * f), 'max_cap': r2(hi * f), 'extra_costs': pick(rng, [0., 1.]), 'wacc': 0.}
+    lp_ramp = (not simple) and rng.random() < 0.12
+    if lp_ramp:
+        # plant without any on/off variable (min_cap 0, no start features): only the ramp rows couple the steps, the first one to last_dispatch
+        st = float(pd.Timedelta(to_offset(g['freq'])) / pd.Timedelta(1, g['unit']))
+        a['min_cap'] = 0.
+        a['ramp'] = r2(pick(rng, [1., 2., 3.]) * f)
+        a['time_already_running'] = r2(st * int(rng.integers(1, 4)))
+        a['last_dispatch'] = r2(pick(rng, [1., hi, hi / 2., 0.]) * f)
+        simple = True
     if not simple:
         st = float(pd.Timedelta(to_offset(g['freq'])) / pd.Timedelta(1, g['unit']))     # step length in main time units
         if rng.random() < 0.5:
@@ -366,9 +379,11 @@ def gen_plant(rng, g, name, nodes, f, price_key, chp=False, simple=False, fuel=T
     has_fuel = (len(nodes) == (3 if chp else 2))
     if has_fuel:
         a['fuel_efficiency'] = pick(rng, [1., 0.5, 0.4])
-        if rng.random() < 0.5:
+        if lp_ramp:
+            pass
+        elif rng.random() < 0.5:
             a['consumption_if_on'] = r2(pick(rng, [0.1, 0.5]) * f)
-        if rng.random() < 0.5:
+        if not lp_ramp and rng.random() < 0.5:
             a['start_fuel'] = pick(rng, [0.5, 2.])
     if chp:
         a['conversion_factor_power_heat'] = pick(rng, [1., 0.5, 0.2])
